@@ -10,6 +10,7 @@ const (
 	ExtPlain = "scratch/ext"
 	ExtDupA  = "scratch/a/dup"
 	ExtDupB  = "scratch/b/dup"
+	ExtDupC  = "scratch/c/dup" // third package named dup: its T is flat (copyable by assignment, ==-comparable)
 	ExtThird = "scratch/third" // only referenced by field types of ext structs: never named by user code
 )
 
@@ -18,6 +19,8 @@ type Std struct {
 	U *Universe
 	// named basics
 	NInt, NStr, NFloat, NBool, NU8 *Type
+	// named types with a String method: a byte slice, a string, an integer
+	NDigest, NStrS, NIntS *Type
 	// local structs
 	SV  *Type // pointer-free, ==-comparable struct
 	SP  *Type // struct with pointer / slice / map content
@@ -30,6 +33,10 @@ type Std struct {
 	// imported
 	XE    *Type // imported struct, exported fields only
 	XU    *Type // imported struct with unexported fields (nameable types)
+	XO    *Type // imported struct without any exported field
+	XDupC *Type // flat struct T from scratch/c/dup
+	SM1   *Type // local struct with fields c/dup.T (flat, first), a/dup.T, b/dup.T
+	SM2   *Type // local struct with fields b/dup.T, c/dup.T
 	XDupA *Type // struct from scratch/a/dup
 	XDupB *Type // struct from scratch/b/dup
 	XN    *Type // imported named basic
@@ -47,6 +54,10 @@ func NewStd(u *Universe) *Std {
 	s.NFloat = u.DeclareAs("", "NFloat", B("float32"))
 	s.NBool = u.DeclareAs("", "NBool", B("bool"))
 	s.NU8 = u.DeclareAs("", "NU8", B("uint8"))
+	s.NDigest = u.DeclareAs("", "NDigest", Slice(B("byte")))
+	s.NStrS = u.DeclareAs("", "NStrS", B("string"))
+	s.NIntS = u.DeclareAs("", "NIntS", B("int"))
+	s.NDigest.Stringer, s.NStrS.Stringer, s.NIntS.Stringer = true, true, true
 	s.SV = u.DeclareAs("", "SV", StructOf(F("A", B("int")), F("B", B("string")), F("C", Array(2, B("bool"))), F("D", s.NInt)))
 	s.SP = u.DeclareAs("", "SP", StructOf(F("P", Ptr(B("int"))), F("S", Slice(B("string"))), F("M", Map(B("string"), B("int"))), F("N", s.NStr), F("V", s.SV)))
 	s.SE = u.DeclareAs("", "SE", StructOf(Emb(s.SV), Emb(Ptr(s.SP)), F("X", B("uint16"))))
@@ -64,9 +75,13 @@ func NewStd(u *Universe) *Std {
 	s.XN = u.DeclareAs(ExtPlain, "Num", B("int32"))
 	s.XE = u.DeclareAs(ExtPlain, "Pub", StructOf(F("I", B("int")), F("S", B("string")), F("P", Ptr(B("float64"))), F("L", Slice(B("uint16"))), F("N", s.XN)))
 	s.XU = u.DeclareAs(ExtPlain, "Priv", StructOf(F("A", B("int")), F("b", B("string")), F("c", Ptr(B("int"))), F("d", Slice(B("int64"))), F("e", Map(B("string"), B("bool")))))
+	s.XO = u.DeclareAs(ExtPlain, "Opaque", StructOf(F("n", B("int")), F("s", B("string")), F("l", Slice(B("int")))))
 	s.XDupA = u.DeclareAs(ExtDupA, "T", StructOf(F("X", B("int")), F("Y", Slice(B("string")))))
 	s.XDupB = u.DeclareAs(ExtDupB, "T", StructOf(F("X", B("string")), F("Z", Ptr(B("bool")))))
 
+	s.XDupC = u.DeclareAs(ExtDupC, "T", StructOf(F("X", B("int")), F("W", B("string"))))
+	s.SM1 = u.DeclareAs("", "SM1", StructOf(F("Old", s.XDupC), F("New", s.XDupA), F("Other", s.XDupB)))
+	s.SM2 = u.DeclareAs("", "SM2", StructOf(F("New", s.XDupB), F("Old", s.XDupC), F("L", Slice(s.XDupA))))
 	tm := u.DeclareAs(ExtThird, "Meters", B("float64"))
 	tp := u.DeclareAs(ExtThird, "Point", StructOf(F("X", B("int")), F("Y", B("int"))))
 	s.XT = u.DeclareAs(ExtPlain, "Span", StructOf(F("Len", tm), F("At", tp), F("S", Slice(B("int")))))
@@ -87,7 +102,7 @@ func (s *Std) Leaves() []*Type {
 // ExtraLeaves are used by the random part only.
 func (s *Std) ExtraLeaves() []*Type {
 	return []*Type{B("int8"), B("int16"), B("int32"), B("int64"), B("uint"), B("uint16"), B("uint32"), B("uint64"), B("uintptr"),
-		B("float32"), B("complex64"), B("byte"), s.NBool, s.NU8, s.SE, s.SEq, s.SCi, s.SCv, s.SH, s.XDupA, s.XDupB, s.XN, s.NSlice, s.NMap, s.NArr, s.NPtr}
+		B("float32"), B("complex64"), B("byte"), s.NBool, s.NU8, s.NDigest, s.NStrS, s.NIntS, s.SE, s.SEq, s.SCi, s.SCv, s.SH, s.XO, s.XDupC, s.SM1, s.SM2, s.XDupA, s.XDupB, s.XN, s.NSlice, s.NMap, s.NArr, s.NPtr}
 }
 
 // Keys returns the value-key types for maps (pointer-free, ==-comparable).
